@@ -7,7 +7,7 @@ from .. import partmon as PM
 from ..driver import drive, result_of
 
 PROP = "C02"
-RULE = ("(a) partition-only histories: class x K x dimension 1..4 x hostile box (adjacent floats, denormal widths, "
+RULE = ("(a) partition-only histories: class x K in {2..8, 10, 16} x dimension 1..4 x hostile box (adjacent floats, denormal widths, "
         "+-1e300, 1e16+ulps, mixed scales) x random interleaving of deepen()/make_children(leaf) x injected outcomes "
         "of np.random.uniform (end points and their float neighbours); every split checked bit-exactly, also through "
         "an icontract post-condition on the real make_children; leaves of the final tree tile the root; (b) every "
@@ -16,7 +16,7 @@ RULE = ("(a) partition-only histories: class x K x dimension 1..4 x hostile box 
 ASSUMPTIONS = [
     "floats are sampled adversarially; 'arbitrary real bounds' (the continuum) is out of reach of execution",
     "boxes satisfy |lo+hi| <= 1e300 per dimension",
-    "equal-size classes: child widths within 4 ulp of (hi-lo)/K (np.linspace / midpoint rounding)",
+    "equal-size classes: child widths within 4 ulp(end points) + K ulp(width) of (hi-lo)/K (np.linspace multiplies a rounded step by i <= K; the second term only matters for subnormal widths)",
     "a split of a zero-width dimension yields children identical to the parent: accepted (empty interiors)",
     "np.random.uniform may return either end point (NumPy documents [low, high) but rounding can give high)",
 ]
@@ -35,14 +35,14 @@ def gen_cases(rng, tier, count=None):
                               n_choices=[100, 150, 200] if tier == "quick" else [100, 200, 400])
             out.append(c)
             continue
-        name = C.PART_NAMES[i % len(C.PART_NAMES)]
+        name = C.PART_NAMES_WIDE[i % len(C.PART_NAMES_WIDE)]
         dim = int(rng.integers(1, 5))
         if name == "DimBin":
-            dim = int(rng.integers(1, 4))
+            dim = int(rng.integers(1, 5)) if rng.random() < 0.3 else int(rng.integers(1, 4))
         box = PM.hostile_box(rng, dim) if rng.random() < 0.7 else C.gen_box(rng, dim)[0]
         c = {"kind": "partition", "part": name, "box": box, "np_seed": int(rng.integers(1 << 30)),
              "ops_seed": int(rng.integers(1 << 30)), "steps": int(rng.integers(6, 40)),
-             "p_deepen": float(rng.choice([0.0, 0.3, 0.6])), "max_nodes": 600, "_cost": 0.05}
+             "p_deepen": float(rng.choice([0.0, 0.3, 0.6])), "max_nodes": 900, "_cost": 0.05}
         if dim >= 2 and rng.random() < 0.12:
             c["box"] = [list(box[0]) for _ in box]
             c["alias_box"] = True
